@@ -38,6 +38,7 @@ FUNCTIONS = [
     "pyxel.detectors.detector:Detector.save", "pyxel.detectors.detector:Detector.load", "pyxel.detectors.detector:Detector.from_dict",
     "pyxel.backends.asdf:to_asdf", "pyxel.backends.asdf:from_asdf",
     "pyxel.models.util:load_detector", "pyxel.models.util:save_detector",
+    "pyxel.exposure.exposure:run_pipeline (result after the load model; concrete witness with real ASDF)",
 ]
 STUBS = ["the asdf module (late import in pyxel.backends.asdf) -> stand-in store returning the tree it was given; symbolic runs only",
          "np -> vx.symnp in pyxel.data_structure.* and detectors.characteristics; isinstance/float/int shadowed in detectors.environment",
